@@ -350,6 +350,14 @@ func c17pair(res *engine.Result, X, Y *gen.Ty, bx, by func(*gen.Ty) *types.Type,
 	if exy != want {
 		bad("equals-not-structural", "Equals(%s, %s) = %v, structural identity (fields by name) = %v", X, Y, exy, want)
 	}
+	// asking the same question about the same two type objects again must give the same answer
+	for i := 0; i < 3; i++ {
+		if again, _ := tryEquals(x, y); again != exy {
+			bad("equals-not-repeatable", "Equals(%s, %s) = %v, repeated on the same objects = %v", X, Y, exy, again)
+			break
+		}
+		res.Execs++
+	}
 	if exy != eyx {
 		bad("equals-not-symmetric", "Equals(%s, %s) = %v but reversed = %v", X, Y, exy, eyx)
 	}
